@@ -121,10 +121,10 @@ def main(tier):
                  (ddiff, ["2012-03-01T12:00:00"], "args"), (ddiff, ["2012-03-01"], "args"), (ddiff, ["2012-03-01T12:00:00", "-f", "%d %H:%M:%S"], "args"),
                  (dadd, ["+1d"], "args"), (dadd, ["+90m"], "args"), (dround, ["Mon"], "args"), (dround, ["/1h"], "args"), (dconv, ["-f", "%F|%T"], "args"),
                  (dtest_dummy, [], "skip")]
-        durs = ["1d", "-1d", "1mo", "+2w", "3b", "-1y", "1h", "x1", "/1d", "1d1mo", "-3h"]
+        durs = ["1d", "-1d", "1mo", "+2w", "3b", "-1y", "1h", "x1", "/1d", "1d1mo", "-3h", "-1d ", "+1d ", "-1d\t", " 1d", "-", "+", "1d -", "-2w x", "--1d", "1d", "2d"]
         specs = [x for x in specs if x[2] != "skip"]
         for tool, args, mode in specs:
-            for k in range(6 if quick else 60):
+            for k in range((6 if quick else 60) * (6 if mode == "dur" else 1)):
                 n = rng.randrange(2, 7)
                 if mode == "dur":
                     ins = [rng.choice(durs) for _ in range(n)]
